@@ -167,7 +167,7 @@ def fibdemux_history_strategy(tier):
     op = kgen.weighted([
         (st.tuples(st.just("put"), flow).map(list), 6),
         (st.tuples(st.just("end_on"), flow).map(list), 2),
-        (st.tuples(st.just("end_off"), flow).map(list), 1),
+        (st.tuples(st.just("end_off"), flow).map(list), 2),
         (st.tuples(st.just("fib_edit"), flow, st.integers(0, 3)).map(list), 3),
         (st.tuples(st.just("fib_del"), flow).map(list), 1),
         (st.tuples(st.just("fib_new"), st.lists(st.tuples(flow, st.integers(0, 3)).map(list), max_size=4,
